@@ -85,3 +85,28 @@ Print Assumptions C14_collinear_exact_partial.
 Print Assumptions C14_pip_exact_partial.
 Print Assumptions C14_pip_exact.
 Print Assumptions C14_pip_exact_scope.
+
+(* K3: the kernels the theorems above are about are regenerated from /repo's current source on every
+   run (Gen/Kernels_gen.v: internal_clipper.go multiplyUInt64, productsAreEqual, isCollinear,
+   CrossProduct, getBounds; clipper.go Area64's guard / initialisation / loop body, GetBounds64) and
+   proved equal to the models *)
+From Coq Require Import QArith.
+From Clip Require Import Model.KernelOps Gen.Kernels_gen Model.KernelProofs.
+Open Scope Z_scope.
+Theorem C14_multiply_from_source : forall a b, inu64 a -> inu64 b ->
+  let r := gen_multiplyUInt64 a b in inu64 (fst r) /\ inu64 (snd r) /\ snd r * two64 + fst r = a * b.
+Proof. intros a b Ha Hb. rewrite gen_multiplyUInt64_eq. exact (multiply_exact a b Ha Hb). Qed.
+Theorem C14_area_from_source : forall p, gen_area2 p = area2_model p.
+Proof. exact gen_area2_eq. Qed.
+Theorem C14_area_source_exact : forall p, path_ok two29 p -> Z.abs (shoelace2 p) < two63 -> gen_area2 p = shoelace2 p.
+Proof. intros p H1 H2. rewrite gen_area2_eq. apply area_exact; assumption. Qed.
+Theorem C14_bounds_from_source : forall p, gen_GetBounds64 p = GetBounds64_model p /\ gen_getBounds p = getBounds_model p.
+Proof. intros p. split; [apply gen_GetBounds64_eq | apply gen_getBounds_eq]. Qed.
+Theorem C14_collinear_from_source : forall p1 sh p2,
+  gen_isCollinear (px p1) (py p1) (px sh) (py sh) (px p2) (py p2) = isCollinear p1 sh p2.
+Proof. exact gen_isCollinear_eq. Qed.
+Theorem C14_cross_from_source : forall p1 p2 p3,
+  gen_CrossProduct (px p1) (py p1) (px p2) (py p2) (px p3) (py p3) = inject_Z (CrossProduct p1 p2 p3).
+Proof. exact gen_CrossProduct_eq. Qed.
+Print Assumptions C14_area_source_exact.
+Print Assumptions C14_multiply_from_source.
